@@ -203,7 +203,14 @@ func VerifC04_FinalisingTrafficRouting() {
 	if pinned && err == nil {
 		verifrt.Assert(un >= 0 && (!done || noGrace), "C04.pinnedStableServiceIsUnpinnedFirst")
 	}
+	// C07: "not done yet, come again" tells the caller how long: the callers turn exactly this into their requeue
+	if err == nil && !done {
+		verifrt.Cover("not-done")
+		verifrt.Assert(w.ctx.RecheckDuration > 0, "C07.manager.notDoneComesWithAWait")
+	}
 }
+
+func VerifC07_FinalisingNotDoneComesWithAWait() { VerifC04_FinalisingTrafficRouting() }
 
 // VerifC05_StableServiceSelectorRoundTrip: pinning and un-pinning the stable Service leaves its selector as the user
 // wrote it (only the revision key is added and removed again).
